@@ -254,6 +254,24 @@ func (g *sgen) schema(depth int, parentGroup string, curDef int, inPlace bool, i
 		}
 		g.forceGroup = saved
 	}
+	if group == "array" && g.o.Draft == D7 && r.IntN(5) == 0 {
+		// draft-07 tuple + additionalItems beside an in-place branch whose schema-form items covers every element: what the
+		// branch evaluated is no business of additionalItems (annotations exist in 2020-12 only)
+		if _, has := s["items"]; !has {
+			s["items"] = []any{g.sub(depth, group, curDef, false)}
+		}
+		if _, isTuple := s["items"].([]any); isTuple {
+			s["additionalItems"] = g.sub(depth, "numeric", curDef, false)
+			branch := map[string]any{"items": Pick(r, []any{true, map[string]any{}, map[string]any{"type": Pick(r, []string{"integer", "number", "string"})}})}
+			kw := Pick(r, []string{"allOf", "anyOf", "oneOf", "if"})
+			if kw == "if" {
+				s["if"] = branch
+			} else {
+				old, _ := s[kw].([]any)
+				s[kw] = append(append([]any{}, old...), branch)
+			}
+		}
+	}
 	if g.o.Refs && r.IntN(4) == 0 {
 		if ref, ok := g.ref(curDef, inPlace); ok {
 			s["$ref"] = ref
